@@ -1,5 +1,6 @@
 import ZV.Model.C04
 import ZV.Model.C04NC
+import ZV.Model.C04Val
 import ZV.Model.C22Any
 import ZV.Generated.C04
 /-! line protocol for C04:
@@ -140,6 +141,28 @@ def handleNC (args : List String) : String :=
      | _, _ => "bad-op")
   | _ => "bad-op"
 
+/-! `c04 val <serial> <nbUnix> <nbNsec> <nbOff> <naUnix> <naNsec> <naOff>` →
+    `ok ser=<INTEGER contents hex> serial=<dec> v=<Validity DER hex> nb=<unix>,<off>,<nsec> na=…` | `err` -/
+def showGT (t : ZV.Time.GoTime) : String := toString t.unix ++ "," ++ toString t.off ++ "," ++ toString t.nsec
+
+def handleVal (args : List String) : String :=
+  match args with
+  | ["val", ser, nbu, nbn, nbo, nau, nan, nao] =>
+    (match parseInt ser, parseInt nbu, nbn.toNat?, parseInt nbo, parseInt nau, nan.toNat?, parseInt nao with
+     | some ser, some nbu, some nbn, some nbo, some nau, some nan, some nao =>
+       (match buildValidity ⟨nbu, nbo, nbn⟩ ⟨nau, nao, nan⟩ with
+        | .ok v =>
+          (match parseValidity v, parseSerial (encSerial ser) with
+           | .ok (a, b), .ok s => "ok ser=" ++ toHex (encSerial ser) ++ " serial=" ++ toString s ++ " v=" ++ toHex v
+               ++ " nb=" ++ showGT a ++ " na=" ++ showGT b
+           | .panic, _ => "panic"
+           | _, .panic => "panic"
+           | _, _ => "err")
+        | .err => "err"
+        | .panic => "panic")
+     | _, _, _, _, _, _, _ => "bad-op")
+  | _ => "bad-op"
+
 def handle (args : List String) : String :=
   match args with
   | "t" :: _seed :: _key :: _signer :: _alg :: rest =>
@@ -156,6 +179,7 @@ def handle (args : List String) : String :=
       | .panic => "panic"
   | "nc" :: _ => handleNC args
   | "ncp" :: _ => handleNC args
+  | "val" :: _ => handleVal args
   | _ => "bad-op"
 
 end ZV.C04
